@@ -204,9 +204,10 @@ def playback(repo, package, harness, timeout=1500):
         except subprocess.TimeoutExpired:
             out2 = 'timeout'
             p2 = None
-        reproduced = bool(p2 and p2.returncode != 0 and re.search(r'panicked|FAILED|failed', out2))
+        reproduced = bool(p2 and p2.returncode != 0 and re.search(r'panicked at|test result: FAILED', out2))
+        keep = [ln for ln in out2.split('\n') if re.search(r'panicked|^test |test result|assertion|left:|right:|error(\[|:)', ln)]
         return {'reproduced': reproduced, 'test_src': test_src, 'values': values,
-                'replay_output': out2[-4000:], 'replay_cmd': ' '.join(cmd2)}
+                'replay_output': '\n'.join(keep)[-4000:] or out2[-2000:], 'replay_cmd': ' '.join(cmd2)}
 
 
 def warm(repo='/repo'):
